@@ -547,6 +547,110 @@ def evaluate(cases, res, rng, producer_sample=150):
     return impl, model
 
 
+# ------------------------------------------------------------------ FrameWriter model
+
+class ScriptedWriter:
+    """stands in for asyncio.StreamWriter: FrameWriter only calls write / drain / close / wait_closed"""
+
+    def __init__(self, drain="ok", close="ok", wait="ok"):
+        self.log = []
+        self.b = dict(drain=drain, close=close, wait=wait)
+
+    @staticmethod
+    def _raise(kind):
+        import asyncio
+        if kind == "os":
+            raise ConnectionResetError("scripted")
+        if kind == "timeout":
+            raise asyncio.TimeoutError()
+        if kind == "other":
+            raise RuntimeError("scripted")
+
+    async def _maybe_hang(self, kind):
+        import asyncio
+        if kind == "hang":          # never completes: the @timeout decorator must turn it into TimeoutError
+            await asyncio.get_running_loop().create_future()
+        self._raise(kind)
+
+    def write(self, data):
+        self.log.append("write:" + hexs(data))
+
+    async def drain(self):
+        self.log.append("drain")
+        await self._maybe_hang(self.b["drain"])
+
+    def close(self):
+        self.log.append("close")
+        self._raise(self.b["close"])
+
+    async def wait_closed(self):
+        self.log.append("wait_closed")
+        await self._maybe_hang(self.b["wait"])
+
+
+def _exc_word(e):
+    import asyncio
+    if isinstance(e, asyncio.TimeoutError):
+        return "raised:timeout"
+    if isinstance(e, OSError):
+        return "raised:os"
+    return "raised:other"
+
+
+def gen_writer(rng, tier):
+    for d in ("ok", "os", "timeout", "hang", "other"):
+        for _ in range(3 if tier == "quick" else 40):
+            yield dict(t="writer", op="write", drain=d, code=rng.choice([25, 51, 53, 176]), payload=bytes(rng.randrange(256) for _ in range(rng.randint(0, 9))).hex(), et=48)
+    yield dict(t="writer", op="write", drain="ok", code=25, payload="", et=300)     # frame.bytes raises: nothing is written
+    for c in ("ok", "os", "timeout", "other"):
+        for w in ("ok", "os", "timeout", "hang", "other"):
+            yield dict(t="writer", op="close", close=c, wait=w)
+
+
+def writer_checks(res, cases):
+    import vloop
+    from pyplumio.stream import FrameWriter
+
+    async def one(case):
+        if case["op"] == "write":
+            w = ScriptedWriter(drain=case["drain"])
+            f = fi.frame_class(case["code"])(recipient=fi.addr(69), econet_type=case["et"], message=bytearray(bytes.fromhex(case["payload"])))
+            try:
+                expect = f.bytes
+            except Exception:  # noqa: BLE001
+                expect = None
+            try:
+                await FrameWriter(w).write(f)
+                r = "ok"
+            except Exception as e:  # noqa: BLE001
+                r = _exc_word(e) if expect is not None else "frame:E:struct"
+            return w.log, r, expect
+        w = ScriptedWriter(close=case["close"], wait=case["wait"])
+        try:
+            await FrameWriter(w).close()
+            r = "ok"
+        except Exception as e:  # noqa: BLE001
+            r = _exc_word(e)
+        return w.log, r, None
+
+    norm = lambda k: "timeout" if k == "hang" else k  # noqa: E731  (a call that never returns times out)
+    obs = [vloop.run(one(c)) for c in cases]
+    lines = []
+    for c, (log, r, expect) in zip(cases, obs):
+        if c["op"] == "write":
+            lines.append(f"fw write {'E' if expect is None else hexs(expect)} {norm(c['drain'])}")
+        else:
+            lines.append(f"fw close {norm(c['close'])} {norm(c['wait'])}")
+    for c, (log, r, expect), m in zip(cases, obs, driver_batch(lines)):
+        res.case(json.dumps(c, sort_keys=True), True)
+        res.count("type:writer:" + c["op"])
+        got = (",".join(log) if log else "-") + " ; " + r
+        if c["op"] == "write" and expect is not None and log[:1] != ["write:" + hexs(expect)]:
+            res.fail("spec", c, "write:" + hexs(expect), log, "bytes handed to the stream writer differ from Frame.bytes")
+        elif got != m:
+            res.fail("corr", c, m, got, "FrameWriter model and FrameWriter differ (calls on the stream writer ; outcome)")
+
+
 def order_failures(res):
     """concrete failing inputs first, smallest input first (fewest set schedule slots, shortest text)"""
     def size(f):
@@ -568,8 +672,10 @@ def run(ctx):
     t = fi.tables()
     kinds = fi.kinds()
     cases = []
+    corpus_scenarios = []
     for fn, ln in load_corpus("C02"):
-        cases.append(json.loads(ln))
+        c = json.loads(ln)
+        (corpus_scenarios if c.get("t") == "frame_reuse" else cases).append(c)
     cases.extend(gen_env(rng, tier, kinds))
     cases.extend(gen_reqs(rng, tier, fi.PINNED_SCHEDULES))
     cases.extend(gen_net(rng, tier))
@@ -588,7 +694,9 @@ def run(ctx):
     res.extra["exhaustive_pairs"] = tier == "thorough"
     res.notes.append("thorough tier enumerates all 256^2 (field, field) pairs of every two-field request and all "
                      "(index, offset) pairs of the thermostat request; the envelope space itself is covered by the theorem")
+    writer_checks(res, list(gen_writer(rng, tier)))
     import reuse
+    reuse.frame_scenarios(res, corpus_scenarios)
     reuse.frame_reuse(res, random.Random(ctx["seed"] * 31 + 202), 600 if tier == "quick" else 20000)
     res.notes.append("object re-use: frames serialised, updated through the data / message setters and serialised again are compared with a fresh frame built from the final content")
     order_failures(res)
@@ -603,8 +711,10 @@ def replay(ctx):
     case = f["input"]
     if case.get("t") == "frame_reuse":
         import reuse
-        for sd in range(200):   # the recorded scenario is regenerated from the generator (seeded); run a batch
-            reuse.frame_reuse(res, random.Random(sd), 50)
+        reuse.frame_scenarios(res, [case])
+        return res
+    if case.get("t") == "writer":
+        writer_checks(res, [case])
         return res
     if "cases" in case:
         cases = case["cases"]
